@@ -218,6 +218,95 @@ def src(node):
         return '<%s>' % type(node).__name__
 
 
+# ---- structural patterns -----------------------------------------------------------------------
+_PAT_CACHE = {}
+_MV = '__mv_'
+_MVX = '__mvx_'
+
+
+def _parse_pattern(pattern):
+    if pattern in _PAT_CACHE:
+        return _PAT_CACHE[pattern]
+    import re as _re
+    text = _re.sub(r'\?\?(\w+)', _MVX + r'\1', pattern)
+    text = _re.sub(r'\?(\w+)', _MV + r'\1', text)
+    try:
+        tree = ast.parse(text, mode='eval').body
+    except SyntaxError:
+        mod = ast.parse(text)
+        tree = mod.body[0]
+        if isinstance(tree, ast.Expr):
+            tree = tree.value
+    _PAT_CACHE[pattern] = tree
+    return tree
+
+
+def pmatch(node, pattern, env=None):
+    """Match an ast node against a pattern written as Python source with metavariables:
+    `?x` matches a plain name (a local variable whose spelling does not matter) and binds x to the
+    identifier; `??x` matches any expression and binds x to its normal form.  A metavariable that
+    is already bound (in `env`, or earlier in the same pattern) must match the same thing.
+    Returns the extended environment (a new dict) or None.  Everything else - attribute names,
+    called functions, constants, keywords, operators, statement shape - must agree exactly, so a
+    rule written with pmatch is insensitive to renaming locals and to nothing else."""
+    env = dict(env or {})
+    pat = _parse_pattern(pattern)
+    if isinstance(node, ast.Expr) and not isinstance(pat, ast.Expr):
+        node = node.value       # expression statement against an expression pattern
+    return env if _pm(node, pat, env) else None
+
+
+def _pm(n, p, env):
+    if isinstance(p, ast.Name):
+        if p.id.startswith(_MVX):
+            key = p.id[len(_MVX):]
+            val = ast.dump(n) if isinstance(n, ast.AST) else repr(n)
+            if key in env:
+                return env[key] == val
+            env[key] = val
+            return True
+        if p.id.startswith(_MV):
+            key = p.id[len(_MV):]
+            if not isinstance(n, ast.Name):
+                return False
+            if key in env:
+                return env[key] == n.id
+            env[key] = n.id
+            return True
+    if isinstance(p, ast.arg) and p.arg.startswith(_MV):
+        key = p.arg[len(_MV):]
+        if not isinstance(n, ast.arg):
+            return False
+        if key in env:
+            return env[key] == n.arg
+        env[key] = n.arg
+        return True
+    if type(n) is not type(p):
+        return False
+    if isinstance(p, ast.AST):
+        for f in p._fields:
+            if f in ('ctx', 'type_comment', 'kind'):
+                continue
+            if not _pm(getattr(n, f, None), getattr(p, f, None), env):
+                return False
+        return True
+    if isinstance(p, list):
+        return len(n) == len(p) and all(_pm(a, b, env) for a, b in zip(n, p))
+    return n == p
+
+
+def pfind(root, pattern, env=None, skip_nested_defs=True):
+    """all (node, env) under root that match the pattern (statements and expressions)"""
+    out = []
+    pat = _parse_pattern(pattern)
+    for n in walk(root, skip_nested_defs):
+        if type(n) is type(pat) or (isinstance(pat, ast.Name) and isinstance(n, ast.expr)):
+            e = pmatch(n, pattern, env)
+            if e is not None:
+                out.append((n, e))
+    return out
+
+
 # ---- CFG ---------------------------------------------------------------------------------------
 class PNode:
     __slots__ = ('idx', 'kind', 'ast', 'label')
